@@ -48,10 +48,12 @@ def expected_psd(I, dom, cname, datatype, o):
             exposed = {"ar": A, "reflection": ref}
         elif cname == "pcovar":
             A, e = st["spectrum.covar.arcovar"](I, data, p)
-            exposed = {"ar": A}
+            rho = V.s_div(e, V.to_float(a["_Spectrum__N"] - p))           # error energy per sample
+            exposed = {"ar": A, "rho": rho}
         elif cname == "pmodcovar":
             A, e = st["spectrum.modcovar.modcovar"](I, data, p)
-            exposed = {"ar": A}
+            rho = V.s_div(e, V.to_float(2 * (a["_Spectrum__N"] - p)))     # forward+backward energy per sample
+            exposed = {"ar": A, "rho": rho}
         elif cname == "parma":
             A, B, rho = st["spectrum.arma.arma_estimate"](I, data, p, q, a["_ParametricSpectrum__lag"])
             exposed = {"ar": A, "ma": B, "rho": rho}
